@@ -189,22 +189,23 @@ type Engine struct {
 
 // Result of one execution.
 type RunResult struct {
-	Plan      *Plan
-	W         *World
-	Hist      []*OpRec
-	Sets      []SetRec
-	EvLog     []string
-	Stats     Stats
-	Viol      []Violation // engine-level findings: wedge, panic
-	Infra     []string    // harness trouble (exit 2)
-	Final     map[string]Stored
-	FinalSnap *Snapshot
-	CtrDelta  map[string]float64
-	SchedHash string
-	InUse     int
-	SeedSnap  *Snapshot
-	Completed bool // the run reached its end inside the bubble
-	Hung      bool // the run did not finish within hangLimit of wall-clock time
+	Plan        *Plan
+	W           *World
+	Hist        []*OpRec
+	Sets        []SetRec
+	EvLog       []string
+	Stats       Stats
+	Viol        []Violation // engine-level findings: wedge, panic
+	Infra       []string    // harness trouble (exit 2)
+	Final       map[string]Stored
+	FinalSnap   *Snapshot
+	FinalServed map[string]string // per log ID (and "adapter/"+ID): what GetCheckpoint answers after the run
+	CtrDelta    map[string]float64
+	SchedHash   string
+	InUse       int
+	SeedSnap    *Snapshot
+	Completed   bool // the run reached its end inside the bubble
+	Hung        bool // the run did not finish within hangLimit of wall-clock time
 }
 
 func (e *Engine) taskName() string {
@@ -1211,6 +1212,16 @@ func executeInBubble(t *testing.T, plan *Plan) (res *RunResult) {
 		e.seamsOn.Store(false)
 		if !e.aborting.Load() {
 			res.FinalSnap = e.snapshot()
+			// ... and what the witness itself (and the adapter in front of it) serves once everything has come to rest
+			res.FinalServed = map[string]string{}
+			for _, l := range e.W.Logs {
+				if b, err := e.wit.GetCheckpoint(l.ID); err == nil {
+					res.FinalServed[l.ID] = string(b)
+				}
+				if b, err := e.adapter.GetLatestCheckpoint(context.Background(), l.ID); err == nil {
+					res.FinalServed["adapter/"+l.ID] = string(b)
+				}
+			}
 		}
 		if e.db != nil {
 			res.InUse = e.db.Stats().InUse
@@ -1232,6 +1243,24 @@ func executeInBubble(t *testing.T, plan *Plan) (res *RunResult) {
 		res.Completed = true
 	})
 	return res
+}
+
+// servedIsStored: once a run has come to rest, what the witness (and the adapter) serve for a log is what the store holds.
+func servedIsStored(res *RunResult) []Violation {
+	var out []Violation
+	if res.FinalSnap == nil || res.FinalSnap.Err != "" || res.FinalServed == nil {
+		return nil
+	}
+	for _, l := range res.W.Logs {
+		stored := res.FinalSnap.CP[l.ID]
+		for _, via := range []string{"", "adapter/"} {
+			if got := res.FinalServed[via+l.ID]; got != stored {
+				out = append(out, Violation{Class: "read_after_write_differs", Sig: "read_after_write_differs/at_rest/" + via, OpIdx: -1,
+					Detail: fmt.Sprintf("after the run came to rest the store holds %s for log %d, but a read through the witness %sanswers %s", short([]byte(stored)), l.Idx, strings.TrimSuffix(via, "/"), short([]byte(got)))})
+			}
+		}
+	}
+	return out
 }
 
 func isNotFound(err error) bool {
